@@ -29,7 +29,7 @@ use vcore::{Ctx, Failure, Obs, ensure};
 /// Runs `$run` (a call of a `run_*_ops` interpreter using `$fetch` and `$hook`) on the structure in
 /// `$mem`, relocating according to the case. `$nonempty(&T)` tells whether the structure holds data.
 macro_rules! relocating {
-    ($c:expr, $mem:expr, $T:ty, $obs:expr, $has_drop:expr, $nonempty:expr, |$fetch:ident, $hook:ident| $run:expr) => {{
+    ($c:expr, $mem:expr, $T:ty, $obs:expr, $scratch:ident, $has_drop:expr, $nonempty:expr, |$fetch:ident, $hook:ident| $run:expr) => {{
         let cell = RefCell::new($mem);
         let trk = RefCell::new(Tracker::default());
         let mem_err: RefCell<Option<Failure>> = RefCell::new(None);
@@ -62,6 +62,9 @@ macro_rules! relocating {
         };
         let mut m = cell.into_inner();
         let fin = m.finish();
+        for cl in &$scratch.classes {
+            $obs.class(cl);
+        }
         trk.borrow().finish($obs, $c.mem, m.relocations);
         if $has_drop {
             m.drop_in_place();
@@ -94,7 +97,7 @@ fn run_vec(c: &Case<VOp>, obs: &mut Obs) -> Result<(), Failure> {
         Err(e) => refused(c.cap, "vec.relocatable_init", "RelocatableVec", e, obs),
         Ok(mem) => (|| {
             let mut scratch = Obs::default();
-            relocating!(c, mem, T, obs, true, |v: &T| !v.is_empty(), |fetch, hook| run_vec_ops(&mut fetch, c.cap, &c.ops, &mut hook, &mut scratch))
+            relocating!(c, mem, T, obs, scratch, true, |v: &T| !v.is_empty(), |fetch, hook| run_vec_ops(&mut fetch, c.cap, &c.ops, &mut hook, &mut scratch))
         })(),
     };
     finish_tracked("vec", r)
@@ -110,7 +113,7 @@ fn run_queue(c: &Case<QOp>, obs: &mut Obs) -> Result<(), Failure> {
             Err(e) => refused(c.cap, "queue.relocatable_init", "RelocatableQueue", e, obs),
             Ok(mem) => (|| {
                 let mut scratch = Obs::default();
-                relocating!(c, mem, T, obs, true, |q: &T| !q.is_empty(), |fetch, hook| run_queue_ops::<Tracked, T>(&mut fetch, c.cap, &c.ops, &mut hook, &mut scratch, &known))
+                relocating!(c, mem, T, obs, scratch, true, |q: &T| !q.is_empty(), |fetch, hook| run_queue_ops::<Tracked, T>(&mut fetch, c.cap, &c.ops, &mut hook, &mut scratch, &known))
             })(),
         }
     } else {
@@ -119,7 +122,7 @@ fn run_queue(c: &Case<QOp>, obs: &mut Obs) -> Result<(), Failure> {
             Err(e) => refused(c.cap, "queue.relocatable_init", "RelocatableQueue", e, obs),
             Ok(mem) => (|| {
                 let mut scratch = Obs::default();
-                relocating!(c, mem, T, obs, true, |q: &T| !q.is_empty(), |fetch, hook| run_queue_ops::<Plain, T>(&mut fetch, c.cap, &c.ops, &mut hook, &mut scratch, &known))
+                relocating!(c, mem, T, obs, scratch, true, |q: &T| !q.is_empty(), |fetch, hook| run_queue_ops::<Plain, T>(&mut fetch, c.cap, &c.ops, &mut hook, &mut scratch, &known))
             })(),
         }
     };
@@ -135,7 +138,7 @@ fn run_slotmap(c: &Case<SOp>, obs: &mut Obs) -> Result<(), Failure> {
         Err(e) => refused(c.cap, "slotmap.relocatable_init", "RelocatableSlotMap", e, obs),
         Ok(mem) => (|| {
             let mut scratch = Obs::default();
-            relocating!(c, mem, T, obs, true, |s: &T| !s.is_empty(), |fetch, hook| run_slotmap_ops::<Tracked, T>(&mut fetch, c.cap, &c.ops, &mut hook, &mut scratch, &known))
+            relocating!(c, mem, T, obs, scratch, true, |s: &T| !s.is_empty(), |fetch, hook| run_slotmap_ops::<Tracked, T>(&mut fetch, c.cap, &c.ops, &mut hook, &mut scratch, &known))
         })(),
     };
     finish_tracked("slotmap", r)
@@ -150,7 +153,7 @@ fn run_flatmap(c: &Case<FOp>, obs: &mut Obs) -> Result<(), Failure> {
         Err(e) => refused(c.cap, "flatmap.relocatable_init", "RelocatableFlatMap", e, obs),
         Ok(mem) => (|| {
             let mut scratch = Obs::default();
-            relocating!(c, mem, T, obs, true, |s: &T| !s.is_empty(), |fetch, hook| run_flatmap_ops::<Tracked, Tracked, T>(&mut fetch, c.cap, &c.ops, &mut hook, &mut scratch, &known))
+            relocating!(c, mem, T, obs, scratch, true, |s: &T| !s.is_empty(), |fetch, hook| run_flatmap_ops::<Tracked, Tracked, T>(&mut fetch, c.cap, &c.ops, &mut hook, &mut scratch, &known))
         })(),
     };
     finish_tracked("flatmap", r)
@@ -168,7 +171,7 @@ fn run_string(c: &Case<StrOp>, obs: &mut Obs) -> Result<(), Failure> {
         Some((s.cmp(ob.get()), *s == *ob.get()))
     };
     let mut scratch = Obs::default();
-    relocating!(c, mem, T, obs, false, |s: &T| !s.is_empty(), |fetch, hook| run_string_ops(&mut fetch, c.cap, false, &c.ops, &mut cmp, &mut hook, &mut scratch, &known))
+    relocating!(c, mem, T, obs, scratch, false, |s: &T| !s.is_empty(), |fetch, hook| run_string_ops(&mut fetch, c.cap, false, &c.ops, &mut cmp, &mut hook, &mut scratch, &known))
 }
 
 fn run_option(c: &Case<OOp>, obs: &mut Obs) -> Result<(), Failure> {
@@ -179,7 +182,7 @@ fn run_option(c: &Case<OOp>, obs: &mut Obs) -> Result<(), Failure> {
     unsafe { (mem.base() as *mut T).write(RelocatableOption::None) };
     let r = (|| {
         let mut scratch = Obs::default();
-        relocating!(c, mem, T, obs, true, |o: &T| o.is_some(), |fetch, hook| run_option_ops::<Tracked>(&mut fetch, &c.ops, &mut hook, &mut scratch))
+        relocating!(c, mem, T, obs, scratch, true, |o: &T| o.is_some(), |fetch, hook| run_option_ops::<Tracked>(&mut fetch, &c.ops, &mut hook, &mut scratch))
     })();
     finish_tracked("option", r)
 }
